@@ -2198,7 +2198,12 @@ class Fxp():
         return transpose(self, axes=axes, out=out, out_like=out_like, sizing=sizing, method=method, **kwargs)
 
     def item(self, *args):
-        if len(args) > 1:
+        if len(args) == 0:
+            # (as ndarray.item(): the one element of an object of size 1)
+            if np.size(self.val) != 1:
+                raise ValueError('can only convert an array of size 1 to a Python scalar')
+            items = 0
+        elif len(args) > 1:
             items = tuple(args)
         else:
             items = args[0]
